@@ -283,6 +283,15 @@ def run(ctx):
                               f"`{name}` is created once in the class body and shared by every {c.name} object; `{fq.module.line(st_['node'].lineno)}` writes into it, "
                               f"so what one object computed (keyed by ids that other tissues reuse) leaks into later objects")
     ctx.ok("STATE", "package / STATE / class-level mutable attributes scanned", "forsys/*", f"{n_cls} classes")
+    n_mod = 0
+    for mn in sorted(repo.modules):
+        if mn in ("forsys.plot", "forsys.auxiliar"):
+            continue
+        n_mod += 1
+        for name, fq, st_ in rules.module_level_mutated(repo, mn):
+            ctx.violation("STATE", f"{fq.qualname} / STATE / module-level container `{name}` mutated", ctx.where(fq, st_["node"]),
+                          f"`{fq.module.line(st_['node'].lineno)}` writes into a module-level container shared by every object and call in the process")
+    ctx.ok("STATE", "package / STATE / module-level mutable state scanned", "forsys/*", f"{n_mod} modules")
     roots = [f"{FS}.build_force_matrix", f"{FS}.solve_stress", f"{FS}.build_pressure_matrix", f"{FS}.solve_pressure", f"{FS}.get_system_velocity_per_frame",
              f"{FS}.__post_init__", f"{FR}.__post_init__"]
     n_def = 0
